@@ -718,3 +718,47 @@ package quickfix
 //@   ensures @store s.store.#T == old(s.store.#T) && s.store.#S == old(s.store.#S) && s.store.#R == old(s.store.#R)
 //@   ensures @nodelivery s.application.#n == old(s.application.#n)
 //@   modifies heap Gh.chan.sent, s.toSend, s.toSend[*], fresh E.sl.uint8, heap E.quickfix.Tag, heap H.quickfix.TagValue.*, fresh E.uint8, fresh H.quickfix.Message.*, fresh H.quickfix.FieldMap.*, fresh H.quickfix.tagSort.*, fresh MH.quickfix.Tag.quickfix.field, fresh H.bytes.Buffer.*, fresh H.sync.RWMutex.*, fresh H.sync.Mutex.*, fresh H.time.Time.*, fresh H.quickfix.FIXUTCTimestamp.*
+
+// resendState.FixMsgIn is not under contract: delivering the kept messages needs "every kept message is still
+// well-formed" across handler calls whose frame is not stated (not decided, see DESIGN.md). Its two requests for the
+// next chunk were checked while the contract was being developed (begin == expected number, end == resendRangeEnd).
+
+// ---- the other states ---------------------------------------------------------------------------------------------
+// logon state: nothing but a Logon is processed (C08); a gap detected on the Logon starts a recovery (C04)
+//@ func (s logonState) FixMsgIn [C01,C04,C06,C08]
+//@   requires @sess sessfull(session)
+//@   requires @bound session.store.#T < MaxInt64
+//@   requires @msg msgok(msg)
+//@   atcall handleLogon @onlylogon islogon(msg)
+//@   ensures @next nextState != nil && stok(nextState)
+//@   ensures @sess sessfull(session) && session.State == old(session.State)
+//@   ensures @nodelivery session.application.#n == old(session.application.#n)
+//@   ensures @notlogon !old(islogon(msg)) ==> nextState is latentState && session.store.#T == old(session.store.#T) && session.store.#S == old(session.store.#S) && sent(session.messageOut) == old(sent(session.messageOut))
+//@   ensures @loggedon nextState is inSession ==> old(islogon(msg)) && ((session.store.#T == wrap64(old(session.store.#T) + 1) && session.store.#R == old(session.store.#R)) || session.store.#R > old(session.store.#R))
+
+//@ func shutdownWithReason [C06,C08]
+//@   requires @sess sessfull(session)
+//@   requires @msg msgok(msg)
+//@   ensures @next nextState is latentState
+//@   ensures @sess sessfull(session) && session.State == old(session.State)
+//@   ensures @nodelivery session.application.#n == old(session.application.#n)
+
+//@ func (state latentState) FixMsgIn [C08]
+//@   requires @sess sessfull(session)
+//@   ensures @ignored nextState is latentState && session.store.#T == old(session.store.#T) && session.store.#S == old(session.store.#S) && session.application.#n == old(session.application.#n) && sent(session.messageOut) == old(sent(session.messageOut))
+//@   pure
+
+//@ func (state notSessionTime) FixMsgIn [C08]
+//@   requires @sess sessfull(session)
+//@   ensures @ignored nextState is notSessionTime && session.store.#T == old(session.store.#T) && session.store.#S == old(session.store.#S) && session.application.#n == old(session.application.#n) && sent(session.messageOut) == old(sent(session.messageOut))
+//@   pure
+
+// logout state: messages are processed as in session until the peer's Logout arrives
+//@ func (state logoutState) FixMsgIn [C01,C06,C08]
+//@   requires @sess sessfull(session)
+//@   requires @bound session.store.#T < MaxInt64
+//@   requires @msg msgok(msg)
+//@   ensures @next nextState is latentState || nextState is logoutState
+//@   ensures @sess sessfull(session) && session.State == old(session.State)
+//@   ensures @once session.application.#n == old(session.application.#n) || (session.application.#n == old(session.application.#n) + 1 && ((session.store.#T == wrap64(old(session.store.#T) + 1) && session.store.#R == old(session.store.#R)) || nextState is latentState))
+//@   ensures @mono (session.store.#T >= old(session.store.#T) && session.store.#R == old(session.store.#R)) || session.store.#R > old(session.store.#R)
